@@ -425,7 +425,10 @@ type mutant struct {
 	New    string
 	Expect string // rule id that must report; "" = benign rewrite, nothing may report
 	All    bool   // replace all occurrences
+	More   []repl // further replacements in the same file
 }
+
+type repl struct{ Old, New string }
 
 func applyMutant(m mutant) (map[string][]byte, bool) {
 	path := filepath.Join(repoDir(), m.File)
@@ -441,6 +444,12 @@ func applyMutant(m mutant) (map[string][]byte, bool) {
 		s = strings.ReplaceAll(s, m.Old, m.New)
 	} else {
 		s = strings.Replace(s, m.Old, m.New, 1)
+	}
+	for _, r := range m.More {
+		if !strings.Contains(s, r.Old) {
+			return nil, false
+		}
+		s = strings.Replace(s, r.Old, r.New, 1)
 	}
 	return map[string][]byte{path: []byte(s)}, true
 }
